@@ -47,7 +47,7 @@ import astutil  # noqa: E402  (load_docs)
 
 HEADERS = ["rkcommon/containers/TransactionalBuffer.h", "rkcommon/utility/TransactionalValue.h"]
 CLANG = os.environ.get("VERIF_CLANGXX", "clang++")
-DEFAULT_FILTER = "Transactional"
+DEFAULT_FILTER = "rkcommon"     # whole namespace: also namespace-level functions and operators of the two headers
 # member functions that are const on every standard container / atomic (used only where the callee
 # is unresolved because the object type is dependent; resolved calls are decided by the AST)
 CONST_CALLS = {"size", "empty", "capacity", "load", "cbegin", "cend", "count", "length", "max_size"}
@@ -169,11 +169,15 @@ class Cls(object):
         self.node = node
 
 
+FREE_FUNCS = []
+
+
 def collect(docs):
     """-> (classes by CXXRecordDecl id, [(function decl node, class id or None)])"""
     classes = {}
     funcs = []
     seen = set()
+    del FREE_FUNCS[:]
 
     def visit(n, cls_id, _in_template):
         k = n.get("kind")
@@ -189,6 +193,11 @@ def collect(docs):
                 for ch in kids(n):
                     visit(ch, n.get("id"), False)
             return
+        if k == "FunctionDecl":                           # namespace-level function / operator (or a template's pattern)
+            if n.get("id") not in seen and not n.get("isImplicit"):
+                seen.add(n.get("id"))
+                FREE_FUNCS.append((n, _in_template))
+            return
         if k in FUNC_KINDS:
             if n.get("id") not in seen:
                 seen.add(n.get("id"))
@@ -197,7 +206,7 @@ def collect(docs):
         if k == "FunctionTemplateDecl":
             first = True
             for ch in kids(n):
-                if ch.get("kind") in FUNC_KINDS:
+                if ch.get("kind") in FUNC_KINDS or ch.get("kind") == "FunctionDecl":
                     if first:                             # the pattern; later ones are specialisations
                         visit(ch, cls_id, True)
                     first = False
@@ -537,11 +546,6 @@ def analyse(repo, workdir):
         notes.append("neither header exists under %s" % repo)
         return [], info
     flt = DEFAULT_FILTER
-    odd = [c for c in names if DEFAULT_FILTER not in c]
-    if odd:
-        flt = "rkcommon"          # every declaration inside namespace rkcommon has it in its qualified name
-        notes.append("classes %s do not match the dump filter %r: dumping namespace rkcommon instead"
-                     % (", ".join(sorted(set(odd))), DEFAULT_FILTER))
     try:
         os.makedirs(workdir, exist_ok=True)
         tu = os.path.join(workdir, "c12_tu.cpp")
@@ -583,8 +587,13 @@ def analyse(repo, workdir):
     for c in classes.values():
         if header_of_file(c.file, want, workdir):
             info["fields"].setdefault(c.name, {}).update({f[0]: f[1] for f in c.fields.values()})
-    info["interface"] = sorted(set(t for c in classes.values() if header_of_file(c.file, want, workdir)
-                                   for t in interface_of(c)))
+    iface = set(t for c in classes.values() if header_of_file(c.file, want, workdir) for t in interface_of(c))
+    # namespace-level functions / operators / function templates declared in the two headers
+    for fn, in_tpl in FREE_FUNCS:
+        if header_of_file(fn.get("_file"), want, workdir):
+            iface.add(("<namespace>", "function", fn.get("name") or "?",
+                       ("template " if in_tpl else "") + ((fn.get("type") or {}).get("qualType") or "").strip()))
+    info["interface"] = sorted(iface)
     if not any(header_of_file(c.file, want, workdir) for c in classes.values()):
         notes.append("no class definition from the two headers in the AST dump")
         return [], info
